@@ -3,10 +3,10 @@ package checks
 import (
 	"fmt"
 	"net/http"
-	"strings"
 	"os"
 	"path/filepath"
 	"sort"
+	"strings"
 	"time"
 
 	"github.com/prometheus/prometheus/model/labels"
